@@ -22,6 +22,7 @@
   semantics `XQ f`, for every `n`, `m` (`0 < n`, `0 < m` follow from `Σ ax = 1`, `Σ ay = 1`).
 -/
 import SLV.Refine.C04Lemmas
+import SLV.Model.Pinned
 import Mathlib.Data.Fin.VecNotation
 
 namespace SLV.Props.C04
@@ -165,6 +166,54 @@ theorem C04_vacuous_antecedent (h : Hyp bx ax ux cb cu ay) (h1 : ux = 1) :
   have e : bRes bx ax ux cb cu ay = fun y => pyhx ax cb cu ay y - ay y * uhat ax cb cu ay :=
     funext (bRes_vacuous h h1)
   rw [e, uRes_vacuous h h1]
+
+/-! ### repair 9ec2d8b: no belief mass and no uncertainty below zero, for ALL operands
+
+`deduce_of` clamps `u` and every `b[y]` at zero before `Simplex::normalized`.  The clamped values are finite `≥ 0`,
+`+∞` or NaN; that class is closed under `+` and under `x / s`, so it survives the normalisation.  No well-formedness,
+no finiteness of the operands is assumed: the operands range over every exact value incl. `±∞` and NaN. -/
+
+/-- every belief mass and the uncertainty of `deduce_of`'s result is NOT below zero (`<` as in IEEE: a NaN or `+∞`
+    result compares "not below"), for all operands whatsoever -/
+theorem C04_masses_nonneg_gen (wx : Opinion (XQ f) n) (conds : CondTab (XQ f) n m) (ay : Tab (XQ f) m) :
+    (∀ y : Fin m, Scalar.lt (deduceOf wx conds ay).b[y] (Scalar.zero : XQ f) = false) ∧
+    Scalar.lt (deduceOf wx conds ay).u (Scalar.zero : XQ f) = false := by
+  unfold deduceOf
+  refine XQ.notNeg_normalized _ _ (fun y => ?_) (XQ.notNeg_clamp _)
+  simp only [Fin.getElem_fin, Vector.getElem_ofFn]
+  exact XQ.notNeg_clamp _
+
+/-- … in particular every finite belief mass and a finite uncertainty of the result are `≥ 0` -/
+theorem C04_masses_nonneg_fin (wx : Opinion (XQ f) n) (conds : CondTab (XQ f) n m) (ay : Tab (XQ f) m) :
+    (∀ (y : Fin m) (q : ℚ), (deduceOf wx conds ay).b[y] = XQ.fin q → 0 ≤ q) ∧
+    (∀ q : ℚ, (deduceOf wx conds ay).u = XQ.fin q → 0 ≤ q) := by
+  obtain ⟨hb, hu⟩ := C04_masses_nonneg_gen wx conds ay
+  refine ⟨fun y q hq => ?_, fun q hq => ?_⟩
+  · have := hb y; rw [hq] at this; exact XQ.notNeg_fin.mp this
+  · rw [hq] at hu; exact XQ.notNeg_fin.mp hu
+
+/-- the same for `deduce` and `deduce_with` (which only choose the base rate on `Y`) -/
+theorem C04_deduce_masses_nonneg_gen (wx : Opinion (XQ f) n) (conds : CondTab (XQ f) n m) (w : Opinion (XQ f) m)
+    (hw : deduce wx conds = some w) :
+    (∀ y : Fin m, Scalar.lt w.b[y] (Scalar.zero : XQ f) = false) ∧ Scalar.lt w.u (Scalar.zero : XQ f) = false := by
+  unfold deduce at hw
+  cases hm : mbr wx.a conds with
+  | none => rw [hm] at hw; cases hw
+  | some ay =>
+    rw [hm] at hw
+    cases hw
+    exact C04_masses_nonneg_gen wx conds ay
+
+/-- non-vacuity / the statement was FALSE before the repair: finite (not well-formed) operands on which the
+    un-clamped `deduce_of` (`Pinned.deduceOfNoClamp`) returns the finite uncertainty `-3/8 < 0`, while the model
+    returns `b = [1, 0]`, `u = 0` -/
+example :
+    let wx : Opinion (XQ .f64) 2 := ⟨#v[.fin (3/2), .fin 0], .fin (-1/2), #v[.fin (1/2), .fin (1/2)]⟩
+    let conds : CondTab (XQ .f64) 2 2 := #v[⟨#v[.fin 1, .fin 0], .fin 0⟩, ⟨#v[.fin 0, .fin (1/2)], .fin (1/2)⟩]
+    let ay : Tab (XQ .f64) 2 := #v[.fin (1/2), .fin (1/2)]
+    (Pinned.deduceOfNoClamp wx conds ay).u = .fin (-3/8) ∧
+    (deduceOf wx conds ay).u = .fin 0 ∧ (deduceOf wx conds ay).b = #v[.fin 1, .fin 0] := by
+  decide +kernel
 
 /-- non-vacuity: a binary antecedent, two ternary conditionals, a base rate with a zero entry -/
 example : Hyp (n := 2) (m := 3) ![1/2, 1/4] ![1/3, 2/3] (1/4)
